@@ -244,10 +244,17 @@ func (x *Exec) violation(kind, msg string, m map[string]uint64) {
 		return
 	}
 	viol.Known = ""
+	if kind == "candidate" {
+		for _, o := range x.res.Violations {
+			if o.Kind == "candidate" && o.Pos == viol.Pos {
+				return
+			}
+		}
+	}
 	x.res.Violations = append(x.res.Violations, viol)
 	n := 0
 	for _, o := range x.res.Violations {
-		if o.Known == "" {
+		if o.Known == "" && o.Kind != "candidate" {
 			n++
 		}
 	}
@@ -366,7 +373,10 @@ func (e *Engine) RunHarness(pkgPath, fname string, args []int64, maxWall time.Du
 		return
 	}
 	pending := [][]Decision{nil}
-	deadline := t0.Add(maxWall)
+	var deadline time.Time
+	if maxWall > 0 {
+		deadline = t0.Add(maxWall)
+	}
 	for len(pending) > 0 {
 		dec := pending[len(pending)-1]
 		pending = pending[:len(pending)-1]
@@ -532,6 +542,15 @@ func (x *Exec) callStatic(fn *ssa.Function, args []Value) []Value {
 	}
 	if x.e.UFStubs[name] {
 		return x.ufStub(fn, args)
+	}
+	if r, ok := x.e.Redirect[name]; ok {
+		i := strings.LastIndex(r, ".")
+		pkg := x.e.P.Pkgs[r[:i]]
+		if pkg == nil || pkg.Func(r[i+1:]) == nil {
+			efail("redirect target %s not found", r)
+		}
+		x.e.stubs[name+" (replaced by harness stub "+r[i+1:]+")"] = true
+		return x.callFunction(pkg.Func(r[i+1:]), args)
 	}
 	if fn.Synthetic == "package initializer" {
 		x.e.ensureInit(x, fn.Pkg)
